@@ -1178,7 +1178,16 @@ class Interp:
         if e('str::starts_with') or e('str::ends_with') or e('str::contains'):
             a = gg(args[0]); b = gg(args[1])
             if isinstance(b, int): b = RStr([b])
-            if has_sym(a) or has_sym(b): raise Unsupported('symbolic ' + base)
+            if has_sym(a) or has_sym(b):
+                # lengths are concrete, characters may be symbolic: decide by a solver query (forks)
+                if not isinstance(b, (RString, RStr)): raise Unsupported('symbolic ' + base + ' with a non-string pattern')
+                A_, B_ = list(a.chars), list(b.chars)
+                if len(B_) > len(A_): return False
+                def at(off):
+                    r = self.equal(RStr(A_[off:off + len(B_)]), RStr(B_))
+                    return z3.BoolVal(r) if isinstance(r, bool) else r
+                offs = [0] if e('starts_with') else [len(A_) - len(B_)] if e('ends_with') else list(range(len(A_) - len(B_) + 1))
+                return self.truth(z3.simplify(z3.Or(*[at(o_) for o_ in offs])))
             sa, sb = show(a.chars), show(b.chars)
             return sa.startswith(sb) if e('starts_with') else sa.endswith(sb) if e('ends_with') else sb in sa
         if e('str::to_uppercase') or e('str::to_lowercase'):
